@@ -28,6 +28,9 @@ import Scico.Proofs.StepsExamples
 import Scico.Proofs.StepsRelax2
 import Scico.Proofs.StepsPGM2
 import Scico.Proofs.StepsStrong
+import Scico.Proofs.StepsOpial
+import Scico.Proofs.StepsOpial2
+import Scico.Proofs.StepsExamples2
 
 set_option linter.unusedSectionVars false
 
@@ -553,6 +556,25 @@ theorem C03_fista_converges (p : PGMParams Unit ℝ X) {G : Fn X} {L m : ℝ} (h
     Filter.Tendsto (fun k => apgmMinimizer (iter (apgmSpecStep p) k s)) Filter.atTop (nhds xs) :=
   ⟨fun k => fista_x_rate p h hm hs hk s hsL ht hv k, fista_x_tendsto p h hm hs hk s hsL ht hv⟩
 
+/-- merely convex problems (no strong convexity), finite-dimensional variables (arrays), Opial's argument: if a saddle
+    point exists, the PDHG iterates (`alpha = 1`, linear `C`, `τσ‖C‖² < 1`) converge from EVERY start to a saddle point
+    `(x̄, z̄)` (`−Cᵀz̄ ∈ ∂f(x̄)`, `Cx̄ ∈ ∂g*(z̄)`) — so `minimizer()` converges to a minimiser of `f + g∘C` -/
+theorem C03_pdhg_converges_findim [FiniteDimensional ℝ X] [FiniteDimensional ℝ Z] {p : PDHGParams ℝ X Z} {F : Fn X}
+    {Gc : Fn Z} {Lc theta : ℝ} (H : PDHGConvHyp p F Gc Lc theta) (hsad : ∃ w, IsSaddle p F Gc w) (s : PDHGState X Z) :
+    ∃ wb : X × Z, IsSaddle p F Gc wb ∧
+      Filter.Tendsto (fun k => pdhgMinimizer (iter (pdhgSpecStep p) k s)) Filter.atTop (nhds wb.1) ∧
+      Filter.Tendsto (fun k => (iter (pdhgSpecStep p) k s).z) Filter.atTop (nhds wb.2) :=
+  pdhg_converges_findim H hsad s
+
+/-- … and the LinearizedADMM iterates `(x_k, z_k, u_k)` (`μ‖C‖² < ν`) converge from EVERY start to a KKT point
+    (`z̄ = Cx̄`, `−(1/ν)Cᵀū ∈ ∂f(x̄)`, `(1/ν)ū ∈ ∂g(Cx̄)`), which minimises `f + g∘C` by `C03_kkt_minimiser` -/
+theorem C03_ladmm_converges_findim [FiniteDimensional ℝ X] [FiniteDimensional ℝ Z] {p : LADMMParams ℝ X Z} {F : Fn X}
+    {G : Fn Z} {Lc : ℝ} (H : LADMMConvHyp p F G Lc) (hk : ∃ w, IsLKKT p F G w) (s : LADMMState X Z) :
+    ∃ wb : X × Z × Z, IsLKKT p F G wb ∧
+      Filter.Tendsto (fun k => ((iter (ladmmSpecStep p) k s).x, (iter (ladmmSpecStep p) k s).z, (iter (ladmmSpecStep p) k s).u))
+        Filter.atTop (nhds wb) :=
+  ladmm_converges_findim H hk s
+
 /-- PGM: the objective is non-increasing along the whole trajectory (base step-size object, `L ≥` Lipschitz constant) -/
 theorem C03_pgm_objective_traj (p : PGMParams Unit ℝ X) {G : Fn X} {L : ℝ} (h : PGMHyp p G L)
     (hd : DescentLemma p.f p.gradf L) (s : PGMState Unit ℝ X) (hsL : s.L = L) (k : Nat) :
@@ -604,6 +626,13 @@ example (y0 : X) : PDHGHyp (exPDHG y0) (halfSq y0) y0 0 ∧ PDHGRange (exPDHG y0
 example (y0 : X) : PADMMHyp (exPADMM y0) (halfSq y0) zeroFn y0 y0 0 := exPADMM_hyp y0
 example (y0 : X) : LADMMHyp (exLADMM y0) (halfSq y0) zeroFn y0 0 := exLADMM_hyp y0
 example (y0 : X) : FISTAHyp (exPGM y0) zeroFn 1 := exPGM_fista y0
+-- the finite-dimensional convergence theorems on the instances (saddle point `(y0, 0)`, KKT point `(y0, y0, 0)`)
+example [FiniteDimensional ℝ X] (y0 : X) :
+    PDHGConvHyp (exPDHG y0) (halfSq y0) (Fn.indicator ({0} : Set X)) 1 (1 / 2) ∧
+    IsSaddle (exPDHG y0) (halfSq y0) (Fn.indicator ({0} : Set X)) (y0, 0) := ⟨exPDHG_conv y0, exPDHG_saddle y0⟩
+example [FiniteDimensional ℝ X] (y0 : X) :
+    LADMMConvHyp (exLADMM y0) (halfSq y0) zeroFn 1 ∧ IsLKKT (exLADMM y0) (halfSq y0) zeroFn (y0, y0, 0) :=
+  ⟨exLADMM_conv y0, exLADMM_kkt y0⟩
 -- strong convexity on the instances: `∂(½‖·−y0‖²)` is 1-strongly monotone; function form for FISTA
 example (y0 : X) : StrongSub (halfSq y0) 1 := halfSq_strong y0
 example (y0 : X) : GradStrongConvex (exPGM y0).f (exPGM y0).gradf 1 := by
